@@ -62,6 +62,16 @@ func main() {
 		}
 	case "dump":
 		os.Exit(cmdDump(os.Args[2:]))
+	case "anchors": // records the unexported functions and struct layouts of the current (pinned) tree
+		t, err := LoadTree(repoDir(), nil, "")
+		if err != nil {
+			fmt.Fprintln(os.Stderr, err)
+			os.Exit(2)
+		}
+		if err := writeAnchors(t, filepath.Join(verifDir(), "reference", "anchors.json")); err != nil {
+			fmt.Fprintln(os.Stderr, err)
+			os.Exit(2)
+		}
 	default:
 		usage()
 	}
@@ -85,6 +95,7 @@ func runProp(id, tier string, overlay map[string][]byte, goarch string) (*Report
 		r.Undecided("LOAD", "tree", "", err.Error())
 		return r, nil
 	}
+	resolveAnchors(t)
 	c := &Ctx{T: t, R: r, Tier: tier}
 	func() {
 		defer func() {
@@ -95,6 +106,9 @@ func runProp(id, tier string, overlay map[string][]byte, goarch string) (*Report
 		pc.run(c)
 	}()
 	r.Extra["packages_loaded"] = len(t.Pkgs)
+	if len(resolvedRenames) > 0 {
+		r.Extra["resolved_renames"] = resolvedRenames
+	}
 	r.Extra["goarch"] = goarch
 	return r, nil
 }
